@@ -256,17 +256,18 @@ func UsesFuzzyOrBoost(e *expr.Expression) bool {
 // driver-table audit of the bounded tier re-checks on the real code.
 
 //@ func ToPostgres
-//@   props C10 C01 C13
+//@   props C10 C01 C13 C15
 //@   requires verifspec.Forall(0, len(opts), func(i int) bool { return opts[i] != nil })
-//@   assumes  driver.Builtin(postgres.Base) && driver.RangAt(postgres.Base) && !driver.Registered(postgres.Base, expr.Fuzzy) && !driver.Registered(postgres.Base, expr.Boost)
+//@   assumes  driver.PostgresTable(postgres.Base)
 //@   ensures[error-means-empty] result1 != nil ==> result0 == ""
+//@   ensures[success-means-sql] result1 == nil ==> result0 != ""
 //@   ensures[fuzzy-and-boost-are-refused] UsesFuzzyOrBoost(ParsedTree(in, opts)) ==> result1 != nil
-//@   lemma renderable before "postgres.Render(e)": driver.LemmaParsedRenderable(e); if driver.HasOp(e, expr.Fuzzy) { driver.LemmaUnregisteredFails(postgres.Base, e, expr.Fuzzy) }; if driver.HasOp(e, expr.Boost) { driver.LemmaUnregisteredFails(postgres.Base, e, expr.Boost) }
+//@   lemma renderable before "postgres.Render(e)": driver.LemmaParsedRenderable(e); driver.LemmaRenderedNonEmpty(postgres.Base, e); if driver.HasOp(e, expr.Fuzzy) { driver.LemmaUnregisteredFails(postgres.Base, e, expr.Fuzzy) }; if driver.HasOp(e, expr.Boost) { driver.LemmaUnregisteredFails(postgres.Base, e, expr.Boost) }
 
 //@ func ToParameterizedPostgres
 //@   props C10 C01 C13
 //@   requires verifspec.Forall(0, len(opts), func(i int) bool { return opts[i] != nil })
-//@   assumes  driver.Builtin(postgres.Base) && driver.RangAt(postgres.Base) && !driver.Registered(postgres.Base, expr.Fuzzy) && !driver.Registered(postgres.Base, expr.Boost)
+//@   assumes  driver.PostgresTable(postgres.Base)
 //@   ensures[error-means-empty] err != nil ==> s == ""
 //@   ensures[fuzzy-and-boost-are-refused] UsesFuzzyOrBoost(ParsedTree(in, opts)) ==> err != nil
 //@   lemma renderable before "postgres.RenderParam(e)": driver.LemmaParsedRenderable(e); if driver.HasOp(e, expr.Fuzzy) { driver.LemmaUnregisteredFailsParam(postgres.Base, e, expr.Fuzzy) }; if driver.HasOp(e, expr.Boost) { driver.LemmaUnregisteredFailsParam(postgres.Base, e, expr.Boost) }
